@@ -18,7 +18,7 @@ import (
 type vSrc63 struct{ v int64 }
 
 func (s *vSrc63) Int63() int64 { return s.v }
-func (s *vSrc63) Seed(int64)    {}
+func (s *vSrc63) Seed(int64)   {}
 
 func vFloorSec(d time.Duration) time.Duration { return d / time.Second * time.Second }
 func vCeilSec(d time.Duration) time.Duration {
